@@ -210,7 +210,14 @@ pub fn corr_run(profile: &Profile, seed: u64, first: u64, cases: u64, max_failur
                     if let Some(t) = ctx.timers.iter().rev().find(|t| matches!(t, foca::Timer::ProbeRandomMember(k) if *k == tok)) {
                         op = Op::Timer(t.clone());
                     }
-                } else if pick < 88 {
+                } else if pick < 82 {
+                    // the probed member answers with the Ack of the current round (including round number 0 after the wrap)
+                    let snap = pair.inst.foca.verif_snapshot();
+                    if let Some(m) = snap.probe_direct {
+                        let h = foca::Header { src: *m.id(), src_incarnation: m.incarnation(), dst: pair.inst.identity(), message: foca::Message::Ack(snap.probe_number) };
+                        op = Op::Data(crate::wire::build_datagram(setup.codec, &h, None, &[]));
+                    }
+                } else if pick < 92 {
                     if let Some(t) = ctx.timers.iter().rev().find(|t| matches!(t, foca::Timer::SendIndirectProbe { token, .. } if *token == tok)) {
                         op = Op::Timer(t.clone());
                     }
